@@ -7,6 +7,7 @@ import numpy as np
 from .. import lib, oracles, ref
 from ..ref import Graph
 
+OPTIMISED_LAST_SHARD = True  # the last shard runs under python -O (no assert statements)
 LEVEL = "exploration"
 TECHNIQUE = 'runtime monitoring: return/raise monitor on find_shortest_path judged by a BFS reference model; exhaustive over every graph with <=12 lattice edges x every ordered cell pair, adversarial and random larger graphs, plus all library-internal solver calls'
 RULE = ("find_shortest_path(s, e) judged against BFS on an adjacency-set model: (1) exhaustively every connection structure on "
